@@ -15,7 +15,7 @@ LEVEL = "proof"
 
 MANIFEST = {
     "technique": 'Coq proof (replace-mode emplace = sync specification; idempotence) + differential correspondence',
-    "text": "Theorems C18_shared_replaced_rest_untouched / C18_idempotent over the model of FilePreservationSyncUtil; C18_source_untouched / C18_b_receives_the_synchronised_content over its file-system operations (Model.Output.filesync_ops, compared with the traced operations of every real run).",
+    "text": "Theorems C18_shared_replaced_rest_untouched / C18_no_shared_tag_b_unchanged / C18_idempotent over the model of FilePreservationSyncUtil; C18_source_untouched / C18_b_receives_the_synchronised_content over its file-system operations (Model.Output.filesync_ops, compared with the traced operations of every real run).",
     "note": PRES_NOTE,
 }
 RULE = ("cases = pairs of files (A, B) built from a grammar: plain lines (TABs, blank-line runs, generator-tag look-alikes, EXCLUDE/"
